@@ -321,6 +321,106 @@ def strat_config(draw, names, ondemand=False):
     return spec
 
 
+# ---------------------------------------------------------------------------------------------
+# histories on one assemble.Assembler object (the documented high-level interface for updatable fields): update(f=..),
+# assemble(f=..), assemble() in any order, re-using field objects; after every assemble the result must equal the
+# operator of an assembler constructed afresh with the fields that are current according to the history.
+
+WRAP_PROBLEMS = {
+    2: ("f * u * v * dx + g * inner(grad(u), grad(v)) * dx", ["u", "v"]),
+    1: ("(f + g * g) * v * dx", ["v"]),
+}
+
+
+def setup_wrapper(tier):
+    from pyiga import assemble, bspline, geometry
+    base = os.environ.get("XDG_CACHE_HOME", "/tmp")
+    os.makedirs(base, exist_ok=True)
+    jobs = [(d, a) for d in (1, 2) for a in (1, 2)]
+    k = int(os.environ.get("VERIF_SHARD", "0")) % len(jobs)
+    for dim, arity in jobs[k:] + jobs[:k]:
+        with open(os.path.join(base, "c08-wrap-%d-%d.lock" % (dim, arity)), "w") as lk:
+            fcntl.flock(lk, fcntl.LOCK_EX)
+            kvs = tuple(bspline.make_knots(1, 0.0, 1.0, 1) for _ in range(dim))
+            text, bf = WRAP_PROBLEMS[arity]
+            f = _field(dim, [1.0])
+            assemble.Assembler(text, kvs, args={"geo": geometry.unit_cube(dim=dim), "f": f, "g": f}, bfuns=bf, updatable=["f", "g"])
+
+
+def check_wrapper_history(spec, ctx):
+    from pyiga import assemble
+    dim = spec["dim"]
+    kvs = tuple(gk.pyiga_kv(k) for k in spec["kvs"])
+    geo = gg.build_geometry(spec["geo"])[0]
+    pool = [_field(dim, sd, p=1 + (i % 2)) for i, sd in enumerate(spec["pool"])]
+    text, bf = WRAP_PROBLEMS[spec["arity"]]
+    cur = dict(spec["init"])
+    args = {"geo": geo, "f": pool[cur["f"]], "g": pool[cur["g"]]}
+    # (assemble_entries rejects symmetric=True in 1D with an explicit "not implemented in 1D")
+    sym = bool(spec["symmetric"]) and spec["arity"] == 2 and dim >= 2
+    A = ctx.sut(assemble.Assembler, text, kvs, args=dict(args), bfuns=list(bf), symmetric=sym, updatable=["f", "g"], what="Assembler")
+    fresh_cache = {}
+
+    def fresh():
+        key = (cur["f"], cur["g"])
+        if key not in fresh_cache:
+            fresh_cache[key] = _dense(assemble.assemble(text, kvs, args={"geo": geo, "f": pool[cur["f"]], "g": pool[cur["g"]]},
+                                                        bfuns=list(bf), symmetric=False))
+        return fresh_cache[key]
+    n_asm = 0
+    explicit_before_assemble = False
+    pending_explicit = False
+    revert = False
+    seen = [dict(cur)]
+    for stp in spec["steps"]:
+        fields = {k: int(v) for k, v in stp["fields"].items()}
+        kw = {k: pool[v] for k, v in fields.items()}
+        if stp["op"] == "update":
+            if not kw:
+                continue
+            ctx.sut(A.update, what="Assembler.update", **kw)
+            cur.update(fields)
+            pending_explicit = True
+        else:
+            got = ctx.sut(A.assemble, format=stp["format"], layout="blocked", what="Assembler.assemble", **kw)
+            cur.update(fields)
+            want = fresh()
+            got = _dense(got)
+            if spec["arity"] == 1:
+                got = got.reshape(want.shape)
+            scale = float(np.max(np.abs(want))) + 1e-300
+            ctx.close("history_equals_fresh", got, want, rtol=1e-12, atol=1e-13 * scale, scale=np.abs(want),
+                      what="assemble after history (current fields f=%d g=%d)" % (cur["f"], cur["g"]))
+            n_asm += 1
+            explicit_before_assemble = explicit_before_assemble or pending_explicit
+        if cur in seen[:-1]:
+            revert = True
+        seen.append(dict(cur))
+    ctx.flag("dim%d" % dim, "arity%d" % spec["arity"], "symmetric" if sym else None,
+             "explicit_update_then_assemble" if explicit_before_assemble else None, "returns_to_earlier_fields" if revert else None)
+    ctx.nontrivial = n_asm >= 2 and explicit_before_assemble
+
+
+@st.composite
+def strat_wrapper(draw):
+    dim = draw(st.sampled_from([1, 2, 2]))
+    arity = draw(st.sampled_from([1, 2, 2]))
+    kvs = [draw(gk.knotvec(pmin=1, pmax=3, nmin=1, nmax=3, decades=1, interval="unit")) for _ in range(dim)]
+    npool = draw(st.integers(2, 4))
+    pool = [[draw(st.integers(-8, 8)) / 4.0 for _ in range(5)] for _ in range(npool)]
+    idx = st.integers(0, npool - 1)
+    steps = []
+    for _ in range(draw(st.integers(2, 7))):
+        op = draw(st.sampled_from(["update", "assemble", "assemble"]))
+        names = draw(st.sampled_from([[], ["f"], ["g"], ["f", "g"], ["f"]])) if op == "assemble" else draw(st.sampled_from([["f"], ["g"], ["f", "g"]]))
+        stp = {"op": op, "fields": {n: draw(idx) for n in names}}
+        if op == "assemble":
+            stp["format"] = draw(st.sampled_from(["csr", "csr", "csc", "coo"])) if arity == 2 else "csr"
+        steps.append(stp)
+    return {"dim": dim, "arity": arity, "kvs": kvs, "geo": draw(gg.geometry_map(dim, pmax=2, nmax=2)), "pool": pool,
+            "init": {"f": draw(idx), "g": draw(idx)}, "symmetric": draw(st.booleans()), "steps": steps}
+
+
 PREDEF = ["MassAssembler", "StiffnessAssembler", "HeatAssembler_ST", "WaveAssembler_ST", "DivDivAssembler", "L2FunctionalAssembler",
           "L2FunctionalAssemblerPhys"]
 
@@ -336,6 +436,11 @@ SUBCHECKS = [
     Sub("ondemand", check_ondemand, strategy=lambda tier: strat_config(ONDEMAND, ondemand=True), quick=64, thorough=2000, shards=8,
         isolate=True, floor=10, timeout_q=900, timeout_t=6000, setup=setup_jit, max_shrink_calls=40,
         rule="on-demand assemblers with generated bounding boxes vs the full assembler"),
+    Sub("wrapper_history", check_wrapper_history, strategy=lambda tier: strat_wrapper(), quick=240, thorough=6000, shards=8, isolate=True,
+        floor=20, timeout_q=600, timeout_t=6000, setup=setup_wrapper, max_shrink_calls=60,
+        rule="histories of update(f=..)/assemble(f=..)/assemble() on one assemble.Assembler object with re-used field objects; after "
+             "every assemble the operator equals that of a freshly constructed assembler with the current fields; non-trivial: "
+             ">= 2 assembles and an explicit update() before an assemble"),
 ]
 SHARED_CACHE = True
 KNOWN = {}
